@@ -135,6 +135,13 @@ def resolve(e, hyps, cache):
         return cache[c]
 
     def rec(x):
+        if isinstance(x, sym.Ite):
+            d = decide(x.args[0])
+            if d is True:
+                return rec(x.args[1])
+            if d is False:
+                return rec(x.args[2])
+            return sym.Ite(x.args[0], rec(x.args[1]), rec(x.args[2]))
         if isinstance(x, sp.Piecewise):
             keep = []
             for v, c in x.args:
@@ -148,7 +155,7 @@ def resolve(e, hyps, cache):
                     continue
                 keep.append((rec(v), c))
             return sp.Piecewise(*keep, evaluate=False) if keep else sp.nan
-        if not x.args or not x.has(sp.Piecewise):
+        if not x.args or not x.has(sp.Piecewise, sym.Ite):
             return x
         return x.func(*[rec(a) for a in x.args])
 
